@@ -16,7 +16,7 @@ func init() { register("C08", ruleC08) }
 // storeTarget describes the struct field a store writes, e.g. "Codon.Weight".
 func storeTarget(addr ssa.Value) string {
 	if fa, ok := addr.(*ssa.FieldAddr); ok {
-		pt := fa.X.Type().Underlying().(*types.Pointer).Elem()
+		pt := types.Unalias(fa.X.Type().Underlying().(*types.Pointer).Elem())
 		st := pt.Underlying().(*types.Struct)
 		name := "struct"
 		if n, ok := pt.(*types.Named); ok {
